@@ -236,7 +236,7 @@ impl Prop for C03 {
         vec!["state exploration trusts the hook PiecewiseEvaluator::verif_state (feature verif-hooks) to expose the complete hidden state (cursor offset, tail length, last argument bits)".into()]
     }
     fn cases(&self, tier: Tier) -> u64 {
-        tier.pick(100_000, 4_000_000)
+        tier.pick(400_000, 6_000_000)
     }
     fn strategy(&self, tier: Tier) -> BoxedStrategy<Case> {
         history_strategy(tier.pick(8, 24), tier.pick(40, 200), false)
